@@ -22,14 +22,15 @@ theorem pushLoop_eq (O : Ops σ) (items : List Val) (n : Nat) : pushLoop O items
   | nil => rfl
   | cons x xs ih => simp only [pushLoop, Spec.pushItems, ih]
 
+theorem pushCore_eq (O : Ops σ) (n : Nat) (items : List Val) : pushCore O n items = Spec.pushCore O n items := by
+  simp only [pushCore, Spec.pushCore, pushLoop_eq]
+
 theorem push_refines (O : Ops σ) (items : List Val) : push O items = Spec.push O items := by
-  funext s; simp only [push, Spec.push, pushLoop_eq]
+  simp only [push, Spec.push, pushCore_eq]
 
-theorem pop_refines (O : Ops σ) : pop O = Spec.pop O := by
-  funext s; simp only [pop, Spec.pop]
+theorem pop_refines (O : Ops σ) : pop O = Spec.pop O := rfl
 
-theorem shift_refines (O : Ops σ) : shift O = Spec.shift O := by
-  funext s; simp only [shift, Spec.shift]; rfl
+theorem shift_refines (O : Ops σ) : shift O = Spec.shift O := rfl
 
 theorem putItems_eq (O : Ops σ) (items : List Val) (n : Nat) : putItems O items n = Spec.putFrom O items n := by
   induction items generalizing n with
@@ -37,28 +38,53 @@ theorem putItems_eq (O : Ops σ) (items : List Val) (n : Nat) : putItems O items
   | cons x xs ih => simp only [putItems, Spec.putFrom, ih]
 
 theorem unshift_refines (O : Ops σ) (items : List Val) : unshift O items = Spec.unshift O items := by
-  funext s; simp only [unshift, Spec.unshift, putItems_eq]; rfl
-
-
+  have h : ∀ len, unshiftCore O len items = Spec.unshiftCore O len items := by
+    intro len; funext s; simp only [unshiftCore, Spec.unshiftCore, putItems_eq]; rfl
+  simp only [unshift, Spec.unshift, h]
 
 theorem toBool_eq (v : Val) : toBool v = Spec.toBoolean v := by
   cases v with
   | str s => cases s <;> simp [toBool, Spec.toBoolean]
   | _ => simp [toBool, Spec.toBoolean, bne, BEq.beq]
 
-theorem every_refines (O : Ops σ) (c : Bool) : every O c = Spec.every O c := by
-  funext s; simp only [every, Spec.every, toBool_eq]; rfl
+/-- reading `length` has no observable effect on this receiver (true of every Array, and of an array-like whose
+    length is a primitive) -/
+def PureLen (O : Ops σ) : Prop := ∀ s, O.lenRead s = .ok () s
 
-theorem some_refines (O : Ops σ) (c : Bool) : some_ O c = Spec.some_ O c := by
-  funext s; simp only [some_, Spec.some_, toBool_eq]; rfl
+/-- the callback builtins: otto tests IsCallable before reading `length`, ES5 after (§15.4.4.16 steps 2–4); the two
+    agree when the callback is callable or reading `length` has no effect — the complement is
+    `callable_before_length` -/
+theorem iterate_refines (O : Ops σ) (c : Bool) (coreM : Nat → M σ Ret) (coreS : Nat → Bool → M σ Ret)
+    (h1 : ∀ len, coreM len = coreS len true) (h2 : ∀ len s, coreS len false s = .err .type s)
+    (hc : c = true ∨ PureLen O) :
+    iterate O c coreM = (do let len ← readLen O; coreS len c) := by
+  cases c with
+  | true => simp only [iterate, Bool.not_true, Bool.false_eq_true, if_false, h1]
+  | false =>
+    rcases hc with hc | hc
+    · cases hc
+    · funext s
+      simp only [iterate, Bool.not_false, if_true, M.throw, readLen, bind, M.bind, hc s, M.read, h2]
 
-theorem forEach_refines (O : Ops σ) (c : Bool) : forEach O c = Spec.forEach O c := by
-  funext s; simp only [forEach, Spec.forEach]
+theorem every_refines (O : Ops σ) (c : Bool) (hc : c = true ∨ PureLen O) : every O c = Spec.every O c := by
+  apply iterate_refines O c _ _ _ _ hc
+  · intro len; funext s; simp only [everyCore, Spec.everyCore, toBool_eq]; rfl
+  · intro len s; rfl
 
-theorem filter_refines (O : Ops σ) (c : Bool) : filter O c = Spec.filter O c := by
-  funext s; simp only [filter, Spec.filter, toBool_eq]
+theorem some_refines (O : Ops σ) (c : Bool) (hc : c = true ∨ PureLen O) : some_ O c = Spec.some_ O c := by
+  apply iterate_refines O c _ _ _ _ hc
+  · intro len; funext s; simp only [someCore, Spec.someCore, toBool_eq]; rfl
+  · intro len s; rfl
 
+theorem forEach_refines (O : Ops σ) (c : Bool) (hc : c = true ∨ PureLen O) : forEach O c = Spec.forEach O c := by
+  apply iterate_refines O c _ _ _ _ hc
+  · intro len; funext s; simp only [forEachCore, Spec.forEachCore]; rfl
+  · intro len s; rfl
 
+theorem filter_refines (O : Ops σ) (c : Bool) (hc : c = true ∨ PureLen O) : filter O c = Spec.filter O c := by
+  apply iterate_refines O c _ _ _ _ hc
+  · intro len; funext s; simp only [filterCore, Spec.filterCore, toBool_eq]; rfl
+  · intro len s; rfl
 
 theorem toFloat_eq (E : Env) (v : Val) : toFloat E v = Spec.toNumber E v := by
   cases v <;> rfl
@@ -80,7 +106,7 @@ theorem toI64_sat (E : Env) (v : Val) (h : WFv v) : toI64 E v = sat (Spec.toInte
     simp only [WFv, minInt64, maxInt64] at h
     simp only [toI64, Spec.toInteger, sat, minInt64, maxInt64]
     split <;> (try split) <;> omega
-  | undef | null | bool _ | num _ | str _ | recv =>
+  | undef | null | bool _ | num _ | str _ | recv | obj _ =>
     simp only [toI64, Spec.toInteger, toFloat_eq]
     cases Spec.toNumber E _ with
     | nan => simp [sat]
@@ -136,13 +162,23 @@ theorem rangeStartEnd_eq (E : Env) (args : List Val) (len : Nat) (hargs : ∀ a 
     · simp [h2, hrel]
     · simp [h2, range_index E _ len (argAt_wf args hargs 1) hlen]
 
-/-- slice = §15.4.4.10 for every receiver and every argument list -/
-theorem slice_refines (O : Ops σ) (E : Env) (args : List Val) (s : σ)
-    (hargs : ∀ a ∈ args, WFv a) (hlen : O.len s < 2^62) :
-    slice O E args s = Spec.slice O E args s := by
-  simp only [slice, Spec.slice, rangeStartEnd_eq E args (O.len s) hargs hlen]
-  generalize Spec.relIndex (Spec.toInteger E (argAt args 0)) (O.len s) = k
-  generalize Spec.relIndex (if argAt args 1 = .undef then .fin (O.len s) else Spec.toInteger E (argAt args 1)) (O.len s) = final
+/-- the two side conditions of the index arithmetic: converted arguments are well-formed values (an integer payload
+    is a Go int64) and lengths stay below 2^62 (they are uint32 in otto) -/
+def ConvWF (O : Ops σ) : Prop := ∀ v s p s', O.conv v s = .ok p s' → WFv p
+def LenSmall (O : Ops σ) : Prop := ∀ s, O.len s < 2^62
+
+theorem wfv_numPrim (p : Val) (h : WFv p) : WFv (numPrim p) := by
+  unfold numPrim; split
+  · trivial
+  · exact h
+
+/-- slice on converted arguments = §15.4.4.10 steps 5–10 -/
+theorem sliceCore_refines (O : Ops σ) (E : Env) (len : Nat) (args : List Val) (s : σ)
+    (hargs : ∀ a ∈ args, WFv a) (hlen : len < 2^62) :
+    sliceCore O E len args s = Spec.sliceCore O E len args s := by
+  simp only [sliceCore, Spec.sliceCore, rangeStartEnd_eq E args len hargs hlen]
+  generalize Spec.relIndex (Spec.toInteger E (argAt args 0)) len = k
+  generalize Spec.relIndex (if argAt args 1 = .undef then .fin len else Spec.toInteger E (argAt args 1)) len = final
   by_cases hge : (k : Int) ≥ (final : Int)
   · have : final - k = 0 := by omega
     simp [hge, this]
@@ -153,163 +189,51 @@ theorem slice_refines (O : Ops σ) (E : Env) (args : List Val) (s : σ)
     intro n _
     simp [Nat.add_comm n k]
 
-theorem alignInt_zero_iff (s : Bool) (m : Nat) (e emin : Int) : alignInt s m e emin = 0 ↔ m = 0 := by
-  unfold alignInt
-  have hp : 0 < 2 ^ (e - emin).toNat := Nat.two_pow_pos _
-  constructor
-  · intro h
-    have h0 : ((m * 2 ^ (e - emin).toNat : Nat) : Int) = 0 := by
-      simp only at h
-      split at h <;> omega
-    have : m * 2 ^ (e - emin).toNat = 0 := by exact_mod_cast h0
-    rcases Nat.mul_eq_zero.mp this with h | h
-    · exact h
-    · omega
-  · intro h; subst h; simp
+theorem wf_pair (a b : Val) (wa : WFv a) (wb : WFv b) : ∀ x ∈ [a, b], WFv x := by
+  intro x hx
+  simp only [List.mem_cons, List.mem_nil_iff, or_false] at hx
+  rcases hx with h | h
+  · subst h; exact wa
+  · subst h; exact wb
 
-theorem emin_comm (e1 e2 : Int) : (if e1 ≤ e2 then e1 else e2) = (if e2 ≤ e1 then e2 else e1) := by
-  split <;> split <;> omega
+theorem wf_single (a : Val) (wa : WFv a) : ∀ x ∈ [a], WFv x := by
+  intro x hx
+  simp only [List.mem_cons, List.mem_nil_iff, or_false] at hx
+  subst hx; exact wa
 
-theorem ord_eq_iff (a b : Int) : (if a < b then Ordering.lt else if a = b then Ordering.eq else Ordering.gt) = Ordering.eq ↔ a = b := by
-  split
-  · simp; omega
-  · split <;> simp_all
+theorem specSliceCore_one (O : Ops σ) (E : Env) (len : Nat) (p0 : Val) :
+    Spec.sliceCore O E len [p0] = Spec.sliceCore O E len [p0, .undef] := by
+  funext s; simp [Spec.sliceCore, argAt]
 
-theorem cmpEq_fin (s1 : Bool) (m1 : Nat) (e1 : Int) (s2 : Bool) (m2 : Nat) (e2 : Int) :
-    cmpReal (.fin s1 m1 e1) (.fin s2 m2 e2) = some .eq ↔
-      alignInt s1 m1 e1 (if e1 ≤ e2 then e1 else e2) = alignInt s2 m2 e2 (if e1 ≤ e2 then e1 else e2) := by
-  simp only [cmpReal, Option.some.injEq, ord_eq_iff]
-
-theorem cmpEq_comm (x y : FV) : cmpReal x y = some .eq ↔ cmpReal y x = some .eq := by
-  cases x with
-  | nan => cases y <;> simp [cmpReal]
-  | inf s =>
-    cases y with
-    | nan => simp [cmpReal]
-    | inf t => cases s <;> cases t <;> simp [cmpReal]
-    | fin t m e => cases s <;> cases t <;> simp [cmpReal]
-  | fin s1 m1 e1 =>
-    cases y with
-    | nan => simp [cmpReal]
-    | inf t => cases s1 <;> cases t <;> simp [cmpReal]
-    | fin s2 m2 e2 =>
-      rw [cmpEq_fin, cmpEq_fin, emin_comm e2 e1]
-      exact eq_comm
-
-theorem cmpEq_zero (x y : FV) (h : cmpReal x y = some .eq) (hz : isZero x = true) : isZero y = true := by
-  cases x with
-  | nan => simp [isZero] at hz
-  | inf s => simp [isZero] at hz
-  | fin s1 m1 e1 =>
-    cases y with
-    | nan => simp [cmpReal] at h
-    | inf t => cases t <;> simp [cmpReal] at h
-    | fin s2 m2 e2 =>
-      have hm : m1 = 0 := by cases m1 with | zero => rfl | succ n => simp [isZero] at hz
-      subst hm
-      rw [cmpEq_fin] at h
-      rw [(alignInt_zero_iff _ _ _ _).mpr rfl] at h
-      have := (alignInt_zero_iff _ _ _ _).mp h.symm
-      subst this; rfl
-
-/-- the number arm of sameValue: otto's formulation (x, y) = §9.12's formulation (y, x) -/
-theorem sameNum (x y : FV) :
-    (if (isNaN x && isNaN y) = true then true
-      else if eqNum x y = true then (if isZero x = true then signBit x == signBit y else true) else false)
-    = (if isNaN y = true ∧ isNaN x = true then true
-      else if isZero y = true ∧ isZero x = true then decide (signBit y = signBit x) else decide (cmpReal y x = some .eq)) := by
-  by_cases hn : isNaN x = true ∧ isNaN y = true
-  · simp [hn.1, hn.2]
-  · have hn' : ¬ (isNaN y = true ∧ isNaN x = true) := fun h => hn ⟨h.2, h.1⟩
-    have hb : (isNaN x && isNaN y) = false := by
-      cases hx : isNaN x <;> cases hy : isNaN y <;> simp_all
-    simp only [hb, hn', if_false, Bool.false_eq_true]
-    by_cases he : cmpReal x y = some .eq
-    · have he' := (cmpEq_comm x y).mp he
-      have hq : eqNum x y = true := by simp [eqNum, he]
-      simp only [hq, if_true, he', decide_true]
-      by_cases hz : isZero x = true
-      · have hzy := cmpEq_zero x y he hz
-        simp only [hz, hzy, and_self, if_true]
-        cases signBit x <;> cases signBit y <;> simp
-      · have : ¬ (isZero y = true ∧ isZero x = true) := fun h => hz h.2
-        simp [hz, this]
-    · have he' : ¬ cmpReal y x = some .eq := fun h => he ((cmpEq_comm x y).mpr h)
-      have hq : eqNum x y = false := by simp [eqNum, he]
-      simp only [hq, Bool.false_eq_true, if_false, he', decide_false]
-      by_cases hz : isZero y = true ∧ isZero x = true
-      · exfalso
-        -- two zeros compare equal
-        obtain ⟨hy, hx⟩ := hz
-        cases x with
-        | nan => simp [isZero] at hx
-        | inf s => simp [isZero] at hx
-        | fin s1 m1 e1 =>
-          cases y with
-          | nan => simp [isZero] at hy
-          | inf s => simp [isZero] at hy
-          | fin s2 m2 e2 =>
-            have h1 : m1 = 0 := by cases m1 with | zero => rfl | succ n => simp [isZero] at hx
-            have h2 : m2 = 0 := by cases m2 with | zero => rfl | succ n => simp [isZero] at hy
-            subst h1; subst h2
-            apply he
-            rw [cmpEq_fin, (alignInt_zero_iff _ _ _ _).mpr rfl, (alignInt_zero_iff _ _ _ _).mpr rfl]
-      · simp [hz]
-
-theorem sameValue_eq (E : Env) (a b : Val) : sameValue E a b = Spec.sameValue E b a := by
-  have hf : ∀ v, toFloat E v = Spec.toNumber E v := fun v => by cases v <;> rfl
-  cases a <;> cases b <;>
-    first
-      | (simp only [sameValue, Spec.sameValue, hf]; exact sameNum _ _)
-      | (simp [sameValue, Spec.sameValue, eq_comm]; done)
-      | (simp only [sameValue, Spec.sameValue]; rename_i p q; by_cases h : p = q
-         · subst h; simp
-         · have h' : ¬ q = p := fun e => h e.symm
-           simp [h, h'])
-
-
-
-
-theorem optb (x : Option Bool) : (x == some true) = x.getD false := by
-  cases x with
-  | none => rfl
-  | some b => cases b <;> rfl
-
-/-- objectDefineOwnProperty = §8.12.9 for every property state and every data or generic descriptor -/
-theorem objectDefineOwnProperty_refines (E : Env) (k : Key) (d : Desc) (throw : Bool) (o : Obj) :
-    objectDefineOwnProperty E k d throw o = Spec.defineOwnDefault E k d throw o := by
-  obtain ⟨dv, dw, de, dc⟩ := d
-  unfold objectDefineOwnProperty Spec.defineOwnDefault
-  cases hl : lookup k o.props with
-  | none =>
-    simp only [reject, optb]
-  | some p =>
-    obtain ⟨pv, pw, pe, pc⟩ := p
-    simp only [reject, Desc.isEmpty, Desc.isGeneric, Desc.isData, sameValue_eq]
-    cases dv <;> cases dw <;>
-      cases de <;> cases dc <;> cases pw <;> cases pe <;> cases pc <;> cases throw <;> simp
-
-/-- objectDelete = §8.12.7 [[Delete]] -/
-theorem objectDelete_refines (k : Key) (throw : Bool) : objectDelete k throw = Spec.delete k throw := by
-  funext o
-  unfold objectDelete Spec.delete
-  cases lookup k o.props with
-  | none => rfl
-  | some p => cases p.c <;> cases throw <;> simp [reject]
-
-/-- strictEqualityComparison = §11.9.6 -/
-theorem strictEquals_eq (E : Env) (a b : Val) : strictEquals E a b = Spec.strictEq E a b := by
-  have hf : ∀ v, toFloat E v = Spec.toNumber E v := fun v => by cases v <;> rfl
-  have hn : ∀ x y : FV, (if (isNaN x || isNaN y) = true then false else eqNum x y) = decide (cmpReal x y = some .eq) := by
-    intro x y
-    cases x <;> cases y <;> simp [isNaN, eqNum, cmpReal]
-  cases a <;> cases b <;>
-    first
-      | (simp only [strictEquals, Spec.strictEq, hf]; exact hn _ _)
-      | (simp [strictEquals, Spec.strictEq]; done)
-      | (simp only [strictEquals, Spec.strictEq]; rename_i p q; by_cases h : p = q
-         · subst h; simp
-         · simp [h])
+/-- **slice = §15.4.4.10**, with the order of the observable steps: length, ToInteger(start), ToInteger(end) -/
+theorem slice_refines (O : Ops σ) (E : Env) (args : List Val) (hconv : ConvWF O) (hlen : LenSmall O) :
+    slice O E args = Spec.slice O E args := by
+  funext s
+  simp only [slice, Spec.slice, readLen, sliceArgs, bind, M.bind, M.read]
+  cases h0 : O.lenRead s with
+  | err e s1 => rfl
+  | ok u s1 =>
+    simp only []
+    cases h1 : O.conv (argAt args 0) s1 with
+    | err e s2 => rfl
+    | ok p0 s2 =>
+      have w0 : WFv p0 := hconv _ _ _ _ h1
+      simp only []
+      by_cases hl1 : args.length = 1
+      · simp only [hl1, if_true, argAt_len1 args hl1, pure, M.pure]
+        rw [sliceCore_refines O E _ [p0] s2 (wf_single p0 w0) (hlen s1), specSliceCore_one]
+        rfl
+      · simp only [hl1, if_false]
+        by_cases hu : argAt args 1 = .undef
+        · simp only [hu, if_true, pure, M.pure]
+          exact sliceCore_refines O E _ _ s2 (wf_pair p0 .undef w0 trivial) (hlen s1)
+        · simp only [hu, if_false, bind, M.bind]
+          cases h2 : O.conv (argAt args 1) s2 with
+          | err e s3 => rfl
+          | ok p1 s3 =>
+            have w1 : WFv (numPrim p1) := wfv_numPrim p1 (hconv _ _ _ _ h2)
+            simp only [pure, M.pure]
+            exact sliceCore_refines O E _ _ s3 (wf_pair p0 _ w0 w1) (hlen s1)
 
 /-- concat = §15.4.4.4 -/
 theorem concat_refines (O : Ops σ) (items : List CArg) : concat O items = Spec.concat O items := by
@@ -317,536 +241,47 @@ theorem concat_refines (O : Ops σ) (items : List CArg) : concat O items = Spec.
   have h : concatItem = Spec.concatItem := by funext it; cases it <;> rfl
   simp only [concat, Spec.concat, h]
 
-/-- what objectDelete does to the store: on success the key is absent and every other key is untouched;
-    on failure nothing changes -/
-theorem objectDelete_effect (k : Key) (o : Obj) :
-    (∃ o', objectDelete k false o = .ok true o' ∧ lookup k o'.props = none ∧
-        (∀ k', k' ≠ k → lookup k' o'.props = lookup k' o.props)) ∨
-    (objectDelete k false o = .ok false o ∧ ∃ p, lookup k o.props = some p ∧ p.c = false) := by
-  unfold objectDelete
-  cases hl : lookup k o.props with
-  | none => exact Or.inl ⟨o, rfl, hl, fun _ _ => rfl⟩
-  | some p =>
-    cases hc : p.c with
-    | true =>
-      refine Or.inl ⟨{ o with props := erase k o.props }, by simp [hc], lookup_erase_self k _, fun k' h => lookup_erase_ne k k' _ h⟩
-    | false => exact Or.inr ⟨by simp [reject, hc], p, rfl, hc⟩
-
-/-- "shrinking length deletes the elements beyond it": when the shrink loop of arrayDefineOwnProperty runs to
-    completion, no element with index in [newLength, newLength + cnt) is left and no other key is touched. -/
-theorem shrinkLoop_deletes (E : Env) (newLength : Nat) (d : Desc) (nw throw : Bool) (cnt : Nat) (o o' : Obj)
-    (h : shrinkLoop E newLength d nw throw cnt o = .ok none o') :
-    (∀ n, newLength ≤ n → n < newLength + cnt → lookup (.idx n) o'.props = none) ∧
-    (∀ k, (∀ n, newLength ≤ n → n < newLength + cnt → k ≠ .idx n) → lookup k o'.props = lookup k o.props) := by
-  induction cnt generalizing o with
-  | zero =>
-    simp only [shrinkLoop, pure, M.pure] at h
-    cases h
-    exact ⟨fun n h1 h2 => by omega, fun _ _ => rfl⟩
-  | succ c ih =>
-    simp only [shrinkLoop, bind, M.bind] at h
-    rcases objectDelete_effect (.idx (newLength + c)) o with ⟨o1, h1, hnone, hother⟩ | ⟨h1, _⟩
-    · rw [h1] at h
-      simp only [Bool.not_true, Bool.false_eq_true, if_false] at h
-      obtain ⟨ihA, ihB⟩ := ih o1 h
-      constructor
-      · intro n hn1 hn2
-        by_cases hn : n = newLength + c
-        · subst hn
-          rw [ihB (.idx (newLength + c)) (fun m hm1 hm2 heq => by injection heq; omega)]
-          exact hnone
-        · exact ihA n hn1 (by omega)
-      · intro k hk
-        rw [ihB k (fun n hn1 hn2 => hk n hn1 (by omega))]
-        exact hother k (hk (newLength + c) (by omega) (by omega))
-    · rw [h1] at h
-      simp only [Bool.not_false, if_true] at h
-      -- the failure branch never returns `none`
-      exfalso
-      simp only [M.bind] at h
-      split at h
-      · cases throw <;> simp [reject, M.pure, pure] at h
-      · cases h
-
-/-- the shrink loop of arrayDefineOwnProperty is §15.4.5.1 step 3.l -/
-theorem shrinkLoop_refines (E : Env) (newLength : Nat) (d : Desc) (nw throw : Bool) (cnt : Nat) :
-    shrinkLoop E newLength d nw throw cnt = Spec.truncateLoop E newLength d nw throw cnt := by
-  induction cnt with
-  | zero => rfl
-  | succ c ih =>
-    funext o
-    simp only [shrinkLoop, Spec.truncateLoop, objectDelete_refines, ih, bind, M.bind]
-    cases Spec.delete (.idx (newLength + c)) false o with
-    | err e s => rfl
-    | ok a s =>
-      cases a with
-      | true => simp
-      | false =>
-        simp only [Bool.not_false, if_true]
-        have hd : ∀ d' : Desc, d'.v.isSome = true → objectDefineOwnProperty E .length d' false = Spec.defineOwnDefault E .length d' false :=
-          fun d' _ => funext fun s' => objectDefineOwnProperty_refines E .length d' false s'
-        cases nw <;> simp only [Bool.not_false, Bool.not_true, if_true, if_false, Bool.false_eq_true] <;>
-          rw [hd _ rfl] <;> simp only [M.bind] <;>
-          (cases Spec.defineOwnDefault E .length _ false s <;> cases throw <;> simp [reject, M.throw, pure, M.pure])
-
-
-
-
-
-/-- reduce = §15.4.4.21 -/
-theorem reduce_refines (O : Ops σ) (c : Bool) (args : List Val) : reduce O c args = Spec.reduce O c args := by
-  funext s
-  unfold reduce Spec.reduce
-  cases c with
-  | false => rfl
-  | true =>
-    simp only [Bool.not_true, Bool.false_eq_true, if_false]
+/-- reduce = §15.4.4.21 (up to the position of the IsCallable test) -/
+theorem reduce_refines (O : Ops σ) (c : Bool) (args : List Val) (hc : c = true ∨ PureLen O) :
+    reduce O c args = Spec.reduce O c args := by
+  apply iterate_refines O c _ (fun len c => Spec.reduceCore O len c args) _ _ hc
+  · intro len; funext s
+    simp only [reduceCore, Spec.reduceCore, Bool.not_true, Bool.false_eq_true, if_false]
     by_cases ha : args.length > 0
     · have ha' : ¬ args.length = 0 := by omega
       simp [ha, ha']
     · have ha' : args.length = 0 := by omega
-      by_cases hl : O.len s = 0
+      by_cases hl : len = 0
       · simp [ha, ha', hl]
-      · have hl' : O.len s > 0 := by omega
-        cases hk : searchUp (O.has s) 0 (O.len s) with
+      · have hl' : len > 0 := by omega
+        cases hk : searchUp (O.has s) 0 len with
         | none => simp [ha, ha', hl, hl']
         | some k => simp [ha, ha', hl, hl']
+  · intro len s; rfl
 
-/-- reduceRight = §15.4.4.22 -/
-theorem reduceRight_refines (O : Ops σ) (c : Bool) (args : List Val) : reduceRight O c args = Spec.reduceRight O c args := by
-  funext s
-  unfold reduceRight Spec.reduceRight
-  cases c with
-  | false => rfl
-  | true =>
-    simp only [Bool.not_true, Bool.false_eq_true, if_false]
+/-- reduceRight = §15.4.4.22 (up to the position of the IsCallable test) -/
+theorem reduceRight_refines (O : Ops σ) (c : Bool) (args : List Val) (hc : c = true ∨ PureLen O) :
+    reduceRight O c args = Spec.reduceRight O c args := by
+  apply iterate_refines O c _ (fun len c => Spec.reduceRightCore O len c args) _ _ hc
+  · intro len; funext s
+    simp only [reduceRightCore, Spec.reduceRightCore, Bool.not_true, Bool.false_eq_true, if_false]
     by_cases ha : args.length > 0
     · have ha' : ¬ args.length = 0 := by omega
       simp [ha, ha']
     · have ha' : args.length = 0 := by omega
-      by_cases hl : O.len s = 0
+      by_cases hl : len = 0
       · simp [ha, ha', hl]
-      · have hl' : O.len s > 0 := by omega
-        cases hk : searchDown (O.has s) (O.len s) with
+      · have hl' : len > 0 := by omega
+        cases hk : searchDown (O.has s) len with
         | none => simp [ha, ha', hl, hl']
         | some k => simp [ha, ha', hl, hl']
+  · intro len s; rfl
 
-/-- map = §15.4.4.19 -/
-theorem map_refines (O : Ops σ) (c : Bool) : map O c = Spec.map O c := by
-  funext s; simp only [map, Spec.map]
-
-/-! ## arrayDefineOwnProperty = §15.4.5.1 -/
-
-theorem write_same (k : Key) (p : PropD) (l : List (Key × PropD)) (h : lookup k l = some p) : write k p l = l := by
-  induction l with
-  | nil => simp [lookup] at h
-  | cons q r ih =>
-    obtain ⟨k', p'⟩ := q
-    by_cases hk : k' = k
-    · subst hk; simp [lookup] at h; subst h; simp [write]
-    · simp only [lookup, hk, if_false] at h
-      simp [write, hk, ih h]
-
-theorem write_write (k : Key) (p q : PropD) (l : List (Key × PropD)) : write k p (write k q l) = write k p l := by
-  induction l with
-  | nil => simp [write]
-  | cons x r ih =>
-    obtain ⟨k', p'⟩ := x
-    by_cases hk : k' = k
-    · simp [write, hk]
-    · simp [write, hk, ih]
-
-theorem cmpReal_refl (x : FV) (h : isNaN x = false) : cmpReal x x = some .eq := by
-  cases x with
-  | nan => simp [isNaN] at h
-  | inf s => simp [cmpReal]
-  | fin s m e => simp [cmpReal]
-
-theorem sameValue_refl (E : Env) (v : Val) : sameValue E v v = true := by
-  have num : ∀ x : FV, (if (isNaN x && isNaN x) = true then true
-      else if eqNum x x = true then (if isZero x = true then signBit x == signBit x else true) else false) = true := by
-    intro x
-    cases hn : isNaN x with
-    | true => simp
-    | false => simp [eqNum, cmpReal_refl x hn]
-  cases v <;> first | (simp only [sameValue]; exact num _) | simp [sameValue]
-
-/-- a successful objectDefineOwnProperty is idempotent: defining the same (data) descriptor again on the result
-    succeeds and changes nothing -/
-theorem odp_idem (E : Env) (k : Key) (d : Desc) (t0 t : Bool) (o o1 : Obj)
-    (h : objectDefineOwnProperty E k d t0 o = .ok true o1) :
-    objectDefineOwnProperty E k d t o1 = .ok true o1 := by
-  obtain ⟨dv, dw, de, dc⟩ := d
-  unfold objectDefineOwnProperty at h
-  cases hl : lookup k o.props with
-  | none =>
-    rw [hl] at h
-    simp only at h
-    by_cases he : o.ext = true
-    · simp only [he, Bool.not_true, Bool.false_eq_true, if_false] at h
-      injection h with _ h
-      subst h
-      unfold objectDefineOwnProperty
-      simp only [lookup_write_self, Desc.isEmpty, Desc.isGeneric, Desc.isData, write_write]
-      cases dv <;> cases dw <;> cases de <;> cases dc <;> simp [sameValue_refl]
-      all_goals (intros; simp_all)
-    · simp [he, reject] at h; cases t0 <;> simp at h
-  | some p =>
-    obtain ⟨pv, pw, pe, pc⟩ := p
-    rw [hl] at h
-    simp only [Desc.isEmpty, Desc.isGeneric, Desc.isData, reject] at h
-    rcases dv with _ | v <;> rcases dw with _ | (_ | _) <;> rcases de with _ | (_ | _) <;>
-      rcases dc with _ | (_ | _) <;> cases pw <;> cases pe <;> cases pc <;> cases t0 <;> simp at h
-    all_goals (try (split at h <;> simp at h))
-    all_goals (first | (obtain ⟨_, _, rfl⟩ := h) | (obtain ⟨_, rfl⟩ := h) | (obtain rfl := h))
-    all_goals (simp [objectDefineOwnProperty, lookup_write_self, write_write, sameValue_refl, Desc.isEmpty, Desc.isGeneric,
-                 Desc.isData, reject])
-    all_goals (intros; simp_all)
-
-theorem obj_eta (o : Obj) : ({ o with props := o.props } : Obj) = o := by cases o; rfl
-
-theorem odp_eq (E : Env) (k : Key) (d : Desc) (t : Bool) :
-    objectDefineOwnProperty E k d t = Spec.defineOwnDefault E k d t := by
-  funext s
-  exact objectDefineOwnProperty_refines E k d t s
-
-theorem oldLen_eq (o : Obj) : Spec.oldLen o = arrLength o := rfl
-
-/-- the index branch: arrayDefineOwnProperty on a canonical index = §15.4.5.1 step 4 -/
-theorem defineIndex_refines (E : Env) (m : Nat) (d : Desc) (t : Bool) (o : Obj) (hwf : WFArr o) :
-    arrayDefineIndex E (.idx m) d t m o = Spec.arrayDefineIdx E (.idx m) d t m o := by
-  obtain ⟨ha, n, w, hl, hn, hb⟩ := hwf
-  have hlp : (lookup Key.length o.props).getD ⟨.int 0, false, false, false⟩ = ⟨.int (n : Nat), w, false, false⟩ := by
-    simp only [LenProp] at hl; simp [hl]
-  simp only [arrayDefineIndex, Spec.arrayDefineIdx, oldLen_eq, arrLength_of o n w hl, lengthWritable_of o n w hl, hlp, reject]
-  by_cases hrej : m ≥ n ∧ w = false
-  · simp only [hrej, and_self, if_true]
-  · simp only [hrej, if_false, bind, M.bind, odp_eq E (.idx m) d false]
-    cases hr : Spec.defineOwnDefault E (.idx m) d false o with
-    | err e s => rfl
-    | ok b s =>
-      cases b with
-      | false => cases t <;> simp [M.throw, pure, M.pure, reject]
-      | true =>
-        simp only [Bool.not_true, Bool.false_eq_true, if_false]
-        by_cases hge : m ≥ n
-        · simp only [hge, if_true]
-          rw [odp_eq E .length _ false]
-        · simp only [hge, if_false]
-          rw [← odp_eq E (.idx m) d false] at hr
-          rw [odp_idem E (.idx m) d false t o s hr]
-          rfl
-
-
-/-- on a state whose length property is ⟨N, writable⟩: {writable:false} alone turns it read-only -/
-theorem odp_length_wfalse (E : Env) (o : Obj) (N : Nat) (hl : LenProp o N true) :
-    Spec.defineOwnDefault E .length { w := some false } false o
-      = .ok true { o with props := write .length ⟨.int N, false, false, false⟩ o.props } := by
-  rw [← odp_eq E .length { w := some false } false]
-  simp only [LenProp] at hl
-  simp [objectDefineOwnProperty, hl, Desc.isEmpty, Desc.isGeneric, Desc.isData]
-
-/-- the tail of the length branch (after the first define succeeded) = §15.4.5.1 steps 3.l–3.n -/
-theorem shrinkTail_refines (E : Env) (N : Nat) (D : Desc) (t : Bool) (cnt : Nat) (o1 : Obj)
-    (hc : Cok D) (hv : D.v = some (.int N)) (hw : D.w ≠ some false) (nw : Bool)
-    (ha : o1.isArr = true) (hl : LenProp o1 N true) (hb : Bound o1 (N + cnt)) (hlt : N + cnt < 2^32) :
-    arrayShrinkTail E N D nw t cnt o1 = Spec.truncateTail E N D nw t cnt o1 := by
-  have hs := shrink_inv E N D nw t hc cnt o1 ha hl hb hlt
-  simp only [arrayShrinkTail, Spec.truncateTail, bind, M.bind, ← shrinkLoop_refines]
-  cases hr : shrinkLoop E N D nw t cnt o1 with
-  | err e o2 => rfl
-  | ok r o2 =>
-    rw [hr] at hs
-    cases r with
-    | some b => rfl
-    | none =>
-      obtain ⟨ha2, hl2, hb2⟩ := hs
-      simp only
-      cases nw with
-      | true =>
-        simp only [Bool.not_true, Bool.false_eq_true, if_false]
-        rw [odp_length_ok E o2 N N D t hl2 hv hc]
-        have hw' : D.w.getD true = true := by
-          cases hD : D.w with
-          | none => rfl
-          | some b => cases b with
-            | true => rfl
-            | false => exact absurd hD hw
-        rw [hw']
-        have hsame : ({ o2 with props := write .length ⟨.int N, true, false, false⟩ o2.props } : Obj) = o2 := by
-          rw [write_same _ _ _ hl2]
-        rw [hsame]
-        rfl
-      | false =>
-        simp only [Bool.not_false, if_true, M.bind]
-        have hv' : ({ D with w := some false } : Desc).v = some (.int N) := hv
-        have h1 := odp_length_ok E o2 N N { D with w := some false } false hl2 hv' hc
-        rw [h1]
-        simp only []
-        rw [odp_idem E .length { D with w := some false } false t o2 _ h1]
-        rw [odp_length_wfalse E o2 N hl2]
-        rfl
-
-/-- the "length" branch: arrayDefineOwnProperty = §15.4.5.1 step 3 -/
-theorem setLength_refines (E : Env) (d : Desc) (t : Bool) (N : Nat) (o : Obj) (hwf : WFArr o) (hN : N < 2^32) :
-    arraySetLength E d t N o = Spec.arraySetLen E d t N o := by
-  obtain ⟨ha, n, w, hl, hn, hb⟩ := hwf
-  have hlp : (lookup Key.length o.props).getD ⟨.int 0, false, false, false⟩ = ⟨.int (n : Nat), w, false, false⟩ := by
-    simp only [LenProp] at hl; simp [hl]
-  simp only [arraySetLength, Spec.arraySetLen, oldLen_eq, arrLength_of o n w hl, lengthWritable_of o n w hl, hlp, reject]
-  by_cases hge : N ≥ n
-  · simp only [hge, if_true]
-    rw [odp_eq E .length _ t]
-  · simp only [hge, if_false]
-    -- the chain define; tail on a writable length with N < n
-    have chain : ∀ (D : Desc) (nw : Bool), D.v = some (.int N) → D.w ≠ some false → w = true →
-        ((do let ok ← objectDefineOwnProperty E .length D t
-             if !ok then pure false else arrayShrinkTail E N D nw t (n - N)) : M Obj Bool) o
-        = ((do let succeeded ← Spec.defineOwnDefault E .length D t
-               if !succeeded then pure false else Spec.truncateTail E N D nw t (n - N)) : M Obj Bool) o := by
-      intro D nw hDv hDw hw
-      subst hw
-      simp only [bind, M.bind, ← odp_eq E .length D t]
-      by_cases hc : Cok D
-      · rw [odp_length_ok E o n N D t hl hDv hc]
-        simp only [Bool.not_true, Bool.false_eq_true, if_false]
-        have hw' : D.w.getD true = true := by
-          cases hD : D.w with
-          | none => rfl
-          | some b => cases b with
-            | true => rfl
-            | false => exact absurd hD hDw
-        rw [hw']
-        refine shrinkTail_refines E N D t (n - N)
-          { o with props := write .length ⟨.int N, true, false, false⟩ o.props } hc hDv hDw nw ha ?_ ?_ ?_
-        · simp [LenProp, lookup_write_self]
-        · intro i hi1 hi2
-          simp only at hi2
-          rw [lookup_write_ne .length (.idx i) _ _ (by intro e; cases e)] at hi2
-          have := hb i hi1 hi2; omega
-        · omega
-      · rw [odp_length_rej E o n true D t hl (by rw [hDv]; rfl) hc]
-        cases t <;> rfl
-    cases w with
-    | false => simp
-    | true =>
-      simp only [Bool.not_true, Bool.false_eq_true, if_false]
-      rcases hdw : d.w with _ | (_ | _)
-      · simpa using chain ⟨some (.int N), none, d.e, d.c⟩ true rfl (by simp) rfl
-      · simpa using chain ⟨some (.int N), some true, d.e, d.c⟩ false rfl (by simp) rfl
-      · simpa using chain ⟨some (.int N), some true, d.e, d.c⟩ true rfl (by simp) rfl
-
-/-- the representation invariant of keys: `name s` is never used for "length" … nor for a canonical index
-    numeral (those are `idx n`); the driver's `keyOfBytes` guarantees it -/
-def KeyOK : Key → Prop
-  | .length => True
-  | .idx _ => True
-  | .name s => Spec.arrayIndex? s = none
-
-/-- **arrayDefineOwnProperty = §15.4.5.1** on a well-formed array, for every key, every data descriptor with
-    optional fields, either throw flag. -/
-theorem arrayDefineOwnProperty_refines (E : Env) (k : Key) (d : Desc) (t : Bool) (o : Obj) (hwf : WFArr o)
-    (hk : KeyOK k) :
-    arrayDefineOwnProperty E k d t o = Spec.arrayDefineOwn E k d t o := by
-  unfold arrayDefineOwnProperty Spec.arrayDefineOwn
-  by_cases hkl : k = .length
-  · subst hkl
-    simp only [if_true]
-    cases hv : d.v with
-    | none =>
-      simp only
-      rw [odp_eq E .length d t]
-    | some nv =>
-      simp only [← length_range]
-      cases hu : arrayUint32 E nv with
-      | none => rfl
-      | some N =>
-        simp only
-        exact setLength_refines E d t N o hwf (arrayUint32_lt E nv N hu)
-  · simp only [hkl, if_false]
-    cases k with
-    | length => exact absurd rfl hkl
-    | idx m =>
-      rw [stringToArrayIndex_idx]
-      simp only [Key.toBytes, arrayIndex_dec]
-      by_cases hm : m < 2^32 - 1
-      · have h0 : ((m : Nat) : Int) ≥ 0 := by omega
-        simp only [hm, if_true, h0, Int.toNat_natCast]
-        exact defineIndex_refines E m d t o hwf
-      · simp only [hm, if_false]
-        have : ¬ ((-1 : Int) ≥ 0) := by omega
-        simp only [this, if_false]
-        rw [odp_eq E _ d t]
-    | name s =>
-      have h2 : Spec.arrayIndex? s = none := hk
-      have : ¬ (stringToArrayIndex (.name s) ≥ 0) := by
-        simp only [stringToArrayIndex, Key.toBytes, array_index_eq, h2]; omega
-      simp only [this, if_false, Key.toBytes, h2]
-      rw [odp_eq E _ d t]
-
-/-- hence §15.4.5.1 itself keeps the length invariant (transfer through the refinement) -/
-theorem wf_specArrayDefine (E : Env) (k : Key) (d : Desc) (t : Bool) (o : Obj) (hwf : WFArr o)
-    (hk : KeyOK k) :
-    WFArr (stateOf (Spec.arrayDefineOwn E k d t o)) := by
-  rw [← arrayDefineOwnProperty_refines E k d t o hwf hk]
-  exact wf_arrayDefine E o k d t hwf
-
-/-! ## objectPut = §8.12.5, histories -/
-
-/-- [[Put]] on an existing writable data property: otto passes the property's own attributes along with the new
-    value, §8.12.5 step 3 passes the value alone — the same [[DefineOwnProperty]] -/
-theorem dod_full_vo (E : Env) (k : Key) (v : Val) (t : Bool) (o : Obj) (p : PropD)
-    (hl : lookup k o.props = some p) (hw : p.w = true) :
-    Spec.defineOwnDefault E k ⟨some v, some p.w, some p.e, some p.c⟩ t o = Spec.defineOwnDefault E k { v := some v } t o := by
-  obtain ⟨pv, pw, pe, pc⟩ := p
-  simp only at hw; subst hw
-  simp only [Spec.defineOwnDefault, hl]
-  cases pe <;> cases pc <;> cases t <;> simp
-
-/-- the truncation loop does not depend on which of the two descriptors it carries -/
-theorem truncateLoop_irrel (E : Env) (N : Nat) (v : Val) (t : Bool) (cnt : Nat) :
-    ∀ o1 : Obj, LenProp o1 N true →
-      Spec.truncateLoop E N ⟨some v, some true, some false, some false⟩ true t cnt o1
-        = Spec.truncateLoop E N { v := some v } true t cnt o1 := by
-  induction cnt with
-  | zero => intro _ _; rfl
-  | succ c ih =>
-    intro o1 hl
-    simp only [Spec.truncateLoop, bind, M.bind, ← objectDelete_refines]
-    rcases objectDelete_cases (.idx (N + c)) o1 with h1 | ⟨h1, _⟩
-    · rw [h1]
-      simp only [Bool.not_true, Bool.false_eq_true, if_false]
-      apply ih
-      simp only [LenProp]; rw [lookup_erase_ne _ _ _ (by intro e; cases e)]; exact hl
-    · rw [h1]
-      simp only [Bool.not_false, if_true, Bool.not_true, Bool.false_eq_true, if_false]
-      rw [← odp_eq E .length _ false, ← odp_eq E .length _ false]
-      simp only [M.bind]
-      rw [odp_length_ok E o1 N (N + c + 1) ⟨some (.int ((N + c + 1 : Nat) : Int)), some true, some false, some false⟩ false hl rfl ⟨by simp, by simp⟩,
-          odp_length_ok E o1 N (N + c + 1) { v := some (.int ((N + c + 1 : Nat) : Int)) } false hl rfl ⟨by simp, by simp⟩]
-      rfl
-
-/-- §15.4.5.1 gives the same result for otto's full descriptor and §8.12.5's value-only descriptor -/
-theorem specDefine_full_vo (E : Env) (k : Key) (v : Val) (t : Bool) (o : Obj) (p : PropD) (hwf : WFArr o)
-    (hl : lookup k o.props = some p) (hw : p.w = true) :
-    Spec.arrayDefineOwn E k ⟨some v, some p.w, some p.e, some p.c⟩ t o = Spec.arrayDefineOwn E k { v := some v } t o := by
-  unfold Spec.arrayDefineOwn
-  by_cases hk : k = .length
-  · subst hk
-    obtain ⟨ha, n, w, hlen, hn, hb⟩ := hwf
-    have hp : p = ⟨.int (n : Nat), w, false, false⟩ := by
-      simp only [LenProp] at hlen; rw [hlen] at hl; injection hl with hl; exact hl.symm
-    subst hp
-    simp only at hw; subst hw
-    simp only [if_true]
-    cases hN : Spec.lengthOf E v with
-    | none => rfl
-    | some N =>
-      simp only
-      have hlp : (lookup Key.length o.props).getD ⟨.int 0, false, false, false⟩ = ⟨.int (n : Nat), true, false, false⟩ := by
-        simp only [LenProp] at hlen; simp [hlen]
-      simp only [Spec.arraySetLen, oldLen_eq, arrLength_of o n true hlen, hlp]
-      have hfv := dod_full_vo E .length (.int N) t o ⟨.int (n : Nat), true, false, false⟩ hl rfl
-      simp only at hfv
-      by_cases hge : N ≥ n
-      · simp only [hge, if_true]; exact hfv
-      · simp only [hge, if_false, Bool.true_eq_false, if_false]
-        have e1 : (!decide ((some true : Option Bool) = some false)) = true := by decide
-        have e2 : (!decide ((none : Option Bool) = some false)) = true := by decide
-        simp only [e1, e2, if_true, bind, M.bind, hfv]
-        rw [← odp_eq E .length { v := some (.int N) } t,
-            odp_length_ok E o n N { v := some (.int N) } t hlen rfl ⟨by simp, by simp⟩]
-        simp only [Option.getD_none, Bool.not_true, Bool.false_eq_true, if_false, Spec.truncateTail, bind, M.bind]
-        rw [truncateLoop_irrel E N (.int N) t (n - N) _ (by simp [LenProp, lookup_write_self])]
-  · simp only [hk, if_false]
-    cases hi : Spec.arrayIndex? k.toBytes with
-    | none => exact dod_full_vo E k v t o p hl hw
-    | some index =>
-      simp only [Spec.arrayDefineIdx, bind, M.bind, dod_full_vo E k v false o p hl hw]
-
-/-- **objectPut = §8.12.5 [[Put]]** (with §15.4.5.1 underneath) on a well-formed array, for every key in `KeyOK` -/
-theorem objectPut_refines (E : Env) (k : Key) (v : Val) (t : Bool) (o : Obj) (hwf : WFArr o) (hk : KeyOK k) :
-    objectPut E k v t o = Spec.put E k v t o := by
-  unfold objectPut Spec.put
-  simp only [canPutDetails, Spec.canPut, defineOwnProperty, Spec.defineOwn, hwf.arr, if_true, bind, M.bind]
-  cases hl : lookup k o.props with
-  | some p =>
-    simp only
-    cases hw : p.w with
-    | false => simp
-    | true =>
-      simp only [Bool.not_true, Bool.false_eq_true, if_false]
-      rw [arrayDefineOwnProperty_refines E k _ t o hwf hk]
-      rw [specDefine_full_vo E k v t o p hwf hl hw]
-  | none =>
-    cases hp : protoLookup k o with
-    | none =>
-      simp only
-      cases he : o.ext with
-      | false => simp
-      | true =>
-        simp only [Bool.not_true, Bool.false_eq_true, if_false]
-        rw [arrayDefineOwnProperty_refines E k _ t o hwf hk]
-    | some pv =>
-      simp only
-      cases he : o.ext with
-      | false => simp
-      | true =>
-        simp only [Bool.not_true, Bool.false_eq_true, if_false]
-        rw [arrayDefineOwnProperty_refines E k _ t o hwf hk]
-
-
-/-! ### histories: model = specification -/
-
-/-- the same history on the specification side (§15.4.5.1 / §8.12.5 / §8.12.7) -/
-def HOp.specRun (E : Env) : HOp → Obj → Obj
-  | .define k d t, o => stateOf (Spec.defineOwn E k d t o)
-  | .put k v t, o => stateOf (Spec.put E k v t o)
-  | .delete k t, o => stateOf (Spec.delete k t o)
-
-def specRunHist (E : Env) : List HOp → Obj → Obj
-  | [], o => o
-  | op :: ops, o => specRunHist E ops (op.specRun E o)
-
-/-- the side condition of a step: keys respect the representation invariant -/
-def StepOK : HOp → Prop
-  | .define k _ _ => KeyOK k
-  | .put k _ _ => KeyOK k
-  | .delete _ _ => True
-
-def HistOK (ops : List HOp) : Prop := ∀ op ∈ ops, StepOK op
-
-theorem step_refines (E : Env) (op : HOp) (o : Obj) (hwf : WFArr o) (hok : StepOK op) :
-    op.run E o = op.specRun E o := by
-  cases op with
-  | define k d t =>
-    simp only [HOp.run, HOp.specRun, defineOwnProperty, Spec.defineOwn, hwf.arr, if_true]
-    rw [arrayDefineOwnProperty_refines E k d t o hwf hok]
-  | put k v t =>
-    simp only [HOp.run, HOp.specRun]
-    rw [objectPut_refines E k v t o hwf hok]
-  | delete k t =>
-    simp only [HOp.run, HOp.specRun, objectDelete_refines]
-
-/-- **history_refines**: every finite history of [[DefineOwnProperty]] / [[Put]] / [[Delete]] on an array (any
-    descriptor, any key) leaves exactly the object that ES5 prescribes — and that object satisfies the length
-    invariant. -/
-theorem history_refines (E : Env) (ops : List HOp) (o : Obj) (hwf : WFArr o) (hok : HistOK ops) :
-    runHist E ops o = specRunHist E ops o ∧ WFArr (specRunHist E ops o) := by
-  induction ops generalizing o with
-  | nil => exact ⟨rfl, hwf⟩
-  | cons op ops ih =>
-    have h1 : StepOK op := hok op (List.mem_cons_self ..)
-    have h2 : HistOK ops := fun x hx => hok x (List.mem_cons_of_mem _ hx)
-    have hwf' : WFArr (op.run E o) := by
-      cases op with
-      | define k d t => exact wf_defineOwn E o k d t hwf
-      | put k v t => exact wf_put E o k v t hwf
-      | delete k t => exact wf_delete o k t hwf
-    have hs := step_refines E op o hwf h1
-    simp only [runHist, specRunHist]
-    rw [← hs]
-    exact ih (op.run E o) hwf' h2
+/-- map = §15.4.4.19 (up to the position of the IsCallable test) -/
+theorem map_refines (O : Ops σ) (c : Bool) (hc : c = true ∨ PureLen O) : map O c = Spec.map O c := by
+  apply iterate_refines O c _ _ _ _ hc
+  · intro len; funext s; simp only [mapCore, Spec.mapCore]; rfl
+  · intro len s; rfl
 
 /-! ## join -/
 
@@ -871,43 +306,60 @@ theorem goJoin_foldl (a : List Nat) (l : List (List Nat)) (sep : List Nat) :
     simp only [List.append_assoc] at this ⊢
     exact this.symm
 
-theorem join_refines (O : Ops σ) (E : Env) (args : List Val) : join O E args = Spec.join O E args := by
+theorem joinCore_refines (O : Ops σ) (E : Env) (len : Nat) (args : List Val) :
+    joinCore O E len args = Spec.joinCore O E len args := by
   funext s
-  simp only [join, Spec.join]
+  simp only [joinCore, Spec.joinCore]
   have hsep : (if argAt args 0 ≠ Val.undef then E.ts (argAt args 0) else [44])
       = (if argAt args 0 = Val.undef then [44] else E.ts (argAt args 0)) := by
     by_cases h : argAt args 0 = .undef <;> simp [h]
   rw [hsep]
-  by_cases h0 : O.len s = 0
+  by_cases h0 : len = 0
   · simp [h0]
   · simp only [h0, if_false]
-    obtain ⟨m, hm⟩ : ∃ m, O.len s = m + 1 := ⟨O.len s - 1, by omega⟩
+    obtain ⟨m, hm⟩ : ∃ m, len = m + 1 := ⟨len - 1, by omega⟩
     rw [hm]
     simp only [Nat.add_sub_cancel, List.range_succ_eq_map, List.map_cons, List.map_map, goJoin_foldl, List.foldl_map]
     rfl
 
 
+/-- a conversion that does nothing: the argument is a primitive -/
+def Prim (O : Ops σ) (v : Val) : Prop := ∀ s, O.conv v s = .ok v s
+
+/-- **join = §15.4.4.5** when the separator is a primitive; otto converts an object separator before it reads
+    `length` (ES5: after) — the complement is `join_separator_before_length` -/
+theorem join_refines (O : Ops σ) (E : Env) (args : List Val) (hsep : Prim O (argAt args 0)) :
+    join O E args = Spec.join O E args := by
+  funext s
+  simp only [join, Spec.join, readLen, bind, M.bind, M.read, joinCore_refines]
+  by_cases hu : argAt args 0 = .undef
+  · simp only [hu, ne_eq, not_true_eq_false, if_false, if_true, pure, M.pure, bind, M.bind, M.read]
+  · simp only [hu, ne_eq, not_false_eq_true, if_true, if_false, hsep s, pure, M.pure, bind, M.bind, M.read]
+    cases h0 : O.lenRead s with
+    | err e s1 => rfl
+    | ok u s1 => simp only [hsep s1]
+
 /-! ## splice -/
 
 /-- splice = §15.4.4.12 for every receiver and every argument list except the one-argument form
     (`splice_one_argument`: ES5.1 removes nothing there, otto and ES2015 remove up to the end) -/
-theorem splice_refines (O : Ops σ) (E : Env) (args : List Val) (s : σ)
-    (hargs : ∀ a ∈ args, WFv a) (hlen : O.len s < 2^62) (hargc : args.length ≠ 1) :
-    splice O E args s = Spec.splice O E args s := by
-  have hstart := range_index E (argAt args 0) (O.len s) (argAt_wf args hargs 0) hlen
-  generalize hk : Spec.relIndex (Spec.toInteger E (argAt args 0)) (O.len s) = start at hstart
-  have hstart_le : start ≤ O.len s := by
+theorem spliceCore_refines (O : Ops σ) (E : Env) (len : Nat) (args : List Val) (s : σ)
+    (hargs : ∀ a ∈ args, WFv a) (hlen : len < 2^62) (hargc : args.length ≠ 1) :
+    spliceCore O E len args s = Spec.spliceCore O E len args s := by
+  have hstart := range_index E (argAt args 0) (len) (argAt_wf args hargs 0) hlen
+  generalize hk : Spec.relIndex (Spec.toInteger E (argAt args 0)) (len) = start at hstart
+  have hstart_le : start ≤ len := by
     rw [← hk]; simp only [Spec.relIndex]; repeat' (first | omega | split)
-  have hcast : ((O.len s : Nat) : Int) - (start : Int) = ((O.len s - start : Nat) : Int) := by omega
-  generalize hd : Spec.clamp0 (Spec.toInteger E (argAt args 1)) (O.len s - start) = dc
-  have hdc_le : dc ≤ O.len s - start := by
+  have hcast : ((len : Nat) : Int) - (start : Int) = ((len - start : Nat) : Int) := by omega
+  generalize hd : Spec.clamp0 (Spec.toInteger E (argAt args 1)) (len - start) = dc
+  have hdc_le : dc ≤ len - start := by
     rw [← hd]; simp only [Spec.clamp0]; repeat' (first | omega | split)
   -- otto's deleteCount is the specification's actualDeleteCount
-  have hdc : (if args.length > 1 then valueToRangeIndex E (argAt args 1) ((O.len s - start : Nat) : Int) true
-      else if args.length = 0 then 0 else ((O.len s - start : Nat) : Int)) = ((dc : Nat) : Int) := by
+  have hdc : (if args.length > 1 then valueToRangeIndex E (argAt args 1) ((len - start : Nat) : Int) true
+      else if args.length = 0 then 0 else ((len - start : Nat) : Int)) = ((dc : Nat) : Int) := by
     by_cases h2 : args.length > 1
     · simp only [h2, if_true]
-      have := range_index_nz E (argAt args 1) (O.len s - start) (argAt_wf args hargs 1) (by omega)
+      have := range_index_nz E (argAt args 1) (len - start) (argAt_wf args hargs 1) (by omega)
       rw [this]; simp only [clampPos, hd]
     · have h0 : args.length = 0 := by omega
       simp only [h2, h0, if_false, if_true]
@@ -916,14 +368,14 @@ theorem splice_refines (O : Ops σ) (E : Env) (args : List Val) (s : σ)
       rw [← hd]
       simp only [argAt, List.getElem?_nil, Option.getD_none, Spec.toInteger, Spec.toNumber, Spec.clamp0]
       repeat' (first | rfl | omega | split)
-  simp only [splice, Spec.splice, hk, hstart, hcast, hdc, Int.toNat_natCast, hd]
-  have hlenv : (Val.int ((O.len s : Int) + ((args.drop 2).length : Nat) - (dc : Int)))
-      = Val.int (((O.len s - dc + (args.drop 2).length : Nat) : Nat) : Int) := by
+  simp only [spliceCore, Spec.spliceCore, hk, hstart, hcast, hdc, Int.toNat_natCast, hd]
+  have hlenv : (Val.int ((len : Int) + ((args.drop 2).length : Nat) - (dc : Int)))
+      = Val.int (((len - dc + (args.drop 2).length : Nat) : Nat) : Int) := by
     congr 1; omega
   rw [hlenv]
   by_cases h1 : (args.drop 2).length < dc
   · simp only [h1, if_true]
-    have e3 : O.len s - (O.len s - dc + (args.drop 2).length) = dc - (args.drop 2).length := by omega
+    have e3 : len - (len - dc + (args.drop 2).length) = dc - (args.drop 2).length := by omega
     simp only [e3, putItems_eq]
     rfl
   · simp only [h1, if_false]
@@ -969,13 +421,13 @@ theorem indexOfStart_lt (n : Spec.IntInf) (len k : Nat) (h : Spec.indexOfStart n
         · simp only [h1, h2, h3, if_true, if_false] at h; injection h with h; omega
         · simp only [h1, h2, h3, if_false] at h; injection h with h; omega
 
-theorem indexOf_refines (O : Ops σ) (E : Env) (args : List Val) (s : σ)
-    (hargs : ∀ a ∈ args, WFv a) (hlen : O.len s < 2^62) :
-    indexOf O E args s = Spec.indexOf O E args s := by
-  simp only [indexOf, Spec.indexOf]
-  by_cases h0 : O.len s = 0
+theorem indexOfCore_refines (O : Ops σ) (E : Env) (len : Nat) (args : List Val) (s : σ)
+    (hargs : ∀ a ∈ args, WFv a) (hlen : len < 2^62) :
+    indexOfCore O E len args s = Spec.indexOfCore O E len args s := by
+  simp only [indexOfCore, Spec.indexOfCore]
+  by_cases h0 : len = 0
   · simp [h0]
-  · have hpos : ((O.len s : Nat) : Int) > 0 := by omega
+  · have hpos : ((len : Nat) : Int) > 0 := by omega
     simp only [hpos, if_true, h0, if_false]
     have hn : (if args.length > 1 then toI64 E (argAt args 1) else 0)
         = sat (if args.length > 1 then Spec.toInteger E (argAt args 1) else .fin 0) := by
@@ -984,15 +436,15 @@ theorem indexOf_refines (O : Ops σ) (E : Env) (args : List Val) (s : σ)
       · simp [sat, maxInt64, minInt64]
     rw [hn]
     generalize (if args.length > 1 then Spec.toInteger E (argAt args 1) else Spec.IntInf.fin 0) = n
-    rw [indexOf_start n (O.len s) (by omega) hlen]
-    cases hst : Spec.indexOfStart n (O.len s) with
+    rw [indexOf_start n (len) (by omega) hlen]
+    cases hst : Spec.indexOfStart n (len) with
     | none => simp [startVal]
     | some k =>
-      have hk := indexOfStart_lt n (O.len s) k hst (by omega)
-      have h1 : ((k : Nat) : Int) ≥ 0 ∧ ((k : Nat) : Int) < ((O.len s : Nat) : Int) := by omega
-      have h2 : (((O.len s : Nat) : Int) - (k : Int)).toNat = O.len s - k := by omega
+      have hk := indexOfStart_lt n (len) k hst (by omega)
+      have h1 : ((k : Nat) : Int) ≥ 0 ∧ ((k : Nat) : Int) < ((len : Nat) : Int) := by omega
+      have h2 : (((len : Nat) : Int) - (k : Int)).toNat = len - k := by omega
       simp only [startVal, h1, and_self, if_true, h2, Int.toNat_natCast, strictEquals_eq]
-      cases List.find? _ (List.range (O.len s - k)) with
+      cases List.find? _ (List.range (len - k)) with
       | none => rfl
       | some j => simp
 
@@ -1017,31 +469,31 @@ theorem lastIndexOf_count (n : Spec.IntInf) (len : Nat) (hlen : len < 2^62) :
       · simp only [h1, h2, if_true, if_false]; repeat' (first | omega | split)
     · simp only [h1, if_false]; repeat' (first | omega | split)
 
-/-- lastIndexOf = §15.4.4.15 for every receiver and argument list -/
-theorem lastIndexOf_refines (O : Ops σ) (E : Env) (args : List Val) (s : σ)
-    (hargs : ∀ a ∈ args, WFv a) (hlen : O.len s < 2^62) :
-    lastIndexOf O E args s = Spec.lastIndexOf O E args s := by
-  simp only [lastIndexOf, Spec.lastIndexOf]
-  have hn : (if args.length > 1 then toI64 E (argAt args 1) else ((O.len s : Nat) : Int) - 1)
-      = sat (if args.length > 1 then Spec.toInteger E (argAt args 1) else .fin (((O.len s : Nat) : Int) - 1)) := by
+/-- lastIndexOf on a converted fromIndex = §15.4.4.15 steps 4–9 -/
+theorem lastIndexOfCore_refines (O : Ops σ) (E : Env) (len : Nat) (args : List Val) (s : σ)
+    (hargs : ∀ a ∈ args, WFv a) (hlen : len < 2^62) :
+    lastIndexOfCore O E len args s = Spec.lastIndexOfCore O E len args s := by
+  simp only [lastIndexOfCore, Spec.lastIndexOfCore]
+  have hn : (if args.length > 1 then toI64 E (argAt args 1) else ((len : Nat) : Int) - 1)
+      = sat (if args.length > 1 then Spec.toInteger E (argAt args 1) else .fin (((len : Nat) : Int) - 1)) := by
     split
     · exact toI64_sat E _ (argAt_wf args hargs 1)
     · simp only [sat, maxInt64, minInt64]; repeat' (first | omega | split)
   rw [hn]
-  generalize (if args.length > 1 then Spec.toInteger E (argAt args 1) else Spec.IntInf.fin (((O.len s : Nat) : Int) - 1)) = n
-  have hc := lastIndexOf_count n (O.len s) hlen
-  generalize (if 0 > sat n then sat n + (O.len s : Int) else sat n) = i' at hc
+  generalize (if args.length > 1 then Spec.toInteger E (argAt args 1) else Spec.IntInf.fin (((len : Nat) : Int) - 1)) = n
+  have hc := lastIndexOf_count n (len) hlen
+  generalize (if 0 > sat n then sat n + (len : Int) else sat n) = i' at hc
   -- otto's three-way branch is one downward search over `lastCount i' len` positions
   have hmodel : ∀ P : Nat → Bool,
-      (if i' ≥ ((O.len s : Nat) : Int) then
-          (Res.ok (indexRet (searchDown P ((((O.len s : Nat) : Int) - 1) + 1).toNat)) s : Res σ Ret)
+      (if i' ≥ ((len : Nat) : Int) then
+          (Res.ok (indexRet (searchDown P ((((len : Nat) : Int) - 1) + 1).toNat)) s : Res σ Ret)
         else if 0 > i' then .ok (indexRet none) s
         else .ok (indexRet (searchDown P (i' + 1).toNat)) s)
-      = .ok (indexRet (searchDown P (lastCount i' (O.len s)))) s := by
+      = .ok (indexRet (searchDown P (lastCount i' (len)))) s := by
     intro P
     simp only [lastCount]
-    by_cases h1 : i' ≥ ((O.len s : Nat) : Int)
-    · have : ((((O.len s : Nat) : Int) - 1) + 1).toNat = O.len s := by omega
+    by_cases h1 : i' ≥ ((len : Nat) : Int)
+    · have : ((((len : Nat) : Int) - 1) + 1).toNat = len := by omega
       simp only [h1, if_true, this]
     · by_cases h2 : 0 > i'
       · simp only [h1, h2, if_true, if_false, searchDown]
@@ -1050,9 +502,144 @@ theorem lastIndexOf_refines (O : Ops σ) (E : Env) (args : List Val) (s : σ)
   simp only [strictEquals_eq]
   have hz : Spec.lastIndexOfCount n 0 = 0 := by
     cases n <;> simp only [Spec.lastIndexOfCount] <;> repeat' (first | rfl | omega | split)
-  by_cases h0 : O.len s = 0
+  by_cases h0 : len = 0
   · simp only [h0, if_true, hz, searchDown]; rfl
   · simp only [h0, if_false]
+
+theorem wf_set (args : List Val) (i : Nat) (p : Val) (h : ∀ a ∈ args, WFv a) (hp : WFv p) : ∀ a ∈ args.set i p, WFv a := by
+  intro a ha
+  rcases List.mem_or_eq_of_mem_set ha with h1 | h1
+  · exact h a h1
+  · subst h1; exact hp
+
+/-- **indexOf = §15.4.4.14**, including the order: length, (nothing more if it is 0), ToInteger(fromIndex) -/
+theorem indexOf_refines (O : Ops σ) (E : Env) (args : List Val) (hconv : ConvWF O) (hlen : LenSmall O)
+    (hargs : ∀ a ∈ args, WFv a) : indexOf O E args = Spec.indexOf O E args := by
+  funext s
+  simp only [indexOf, Spec.indexOf, readLen, bind, M.bind, M.read]
+  cases h0 : O.lenRead s with
+  | err e s1 => rfl
+  | ok u s1 =>
+    simp only []
+    by_cases hz : O.len s1 = 0
+    · have : ¬ (O.len s1 > 0) := by omega
+      simp only [hz, this, if_true, if_false, pure, M.pure]
+      exact indexOfCore_refines O E 0 args s1 hargs (by omega)
+    · have : O.len s1 > 0 := by omega
+      simp only [hz, this, if_true, if_false, convAt]
+      by_cases h1 : args.length > 1
+      · simp only [h1, if_true, bind, M.bind]
+        cases hc : O.conv (argAt args 1) s1 with
+        | err e s2 => rfl
+        | ok p s2 =>
+          simp only [pure, M.pure]
+          exact indexOfCore_refines O E _ _ s2 (wf_set args 1 p hargs (hconv _ _ _ _ hc)) (hlen s1)
+      · simp only [h1, if_false, pure, M.pure]
+        exact indexOfCore_refines O E _ args s1 hargs (hlen s1)
+
+/-- **lastIndexOf = §15.4.4.15** unless the array is empty and fromIndex is an object: otto converts fromIndex even
+    then (`lastIndexOf_converts_fromIndex_of_empty`) -/
+theorem lastIndexOf_refines (O : Ops σ) (E : Env) (args : List Val) (hconv : ConvWF O) (hlen : LenSmall O)
+    (hargs : ∀ a ∈ args, WFv a)
+    (hreg : (∀ s, O.len s ≠ 0) ∨ args.length ≤ 1 ∨ Prim O (argAt args 1)) :
+    lastIndexOf O E args = Spec.lastIndexOf O E args := by
+  funext s
+  simp only [lastIndexOf, Spec.lastIndexOf, readLen, bind, M.bind, M.read]
+  cases h0 : O.lenRead s with
+  | err e s1 => rfl
+  | ok u s1 =>
+    simp only []
+    have hnz : O.len s1 ≠ 0 ∨ args.length ≤ 1 ∨ Prim O (argAt args 1) := by
+      rcases hreg with h | h | h
+      · exact Or.inl (h s1)
+      · exact Or.inr (Or.inl h)
+      · exact Or.inr (Or.inr h)
+    show _ = _
+    revert hnz
+    intro hnz
+    (
+      by_cases hz : O.len s1 = 0
+      · simp only [hz, if_true, pure, M.pure, M.bind, convAt]
+        rcases hnz with h | h | h
+        · exact absurd hz h
+        · have : ¬ args.length > 1 := by omega
+          simp only [this, if_false, pure, M.pure]
+          exact lastIndexOfCore_refines O E 0 args s1 hargs (by omega)
+        · by_cases h1 : args.length > 1
+          · simp only [h1, if_true, bind, M.bind, h s1, pure, M.pure]
+            have : args.set 1 (argAt args 1) = args := by
+              unfold argAt
+              have hlt : 1 < args.length := h1
+              simp [List.getElem?_eq_getElem hlt]
+            rw [this]
+            exact lastIndexOfCore_refines O E 0 args s1 hargs (by omega)
+          · simp only [h1, if_false, pure, M.pure]
+            exact lastIndexOfCore_refines O E 0 args s1 hargs (by omega)
+      · simp only [hz, if_false, convAt, M.bind]
+        by_cases h1 : args.length > 1
+        · simp only [h1, if_true, bind, M.bind]
+          cases hc : O.conv (argAt args 1) s1 with
+          | err e s2 => rfl
+          | ok p s2 =>
+            simp only [pure, M.pure]
+            exact lastIndexOfCore_refines O E _ _ s2 (wf_set args 1 p hargs (hconv _ _ _ _ hc)) (hlen s1)
+        · simp only [h1, if_false, pure, M.pure]
+          exact lastIndexOfCore_refines O E _ args s1 hargs (hlen s1)
+    )
+
+
+theorem specSpliceCore_nil (O : Ops σ) (E : Env) (len : Nat) :
+    Spec.spliceCore O E len [] = Spec.spliceCore O E len [.undef, .undef] := by
+  funext s; simp [Spec.spliceCore, argAt]
+
+theorem set_set_two (args : List Val) (p0 p1 : Val) (h : args.length > 1) :
+    (args.set 0 p0).set 1 p1 = p0 :: p1 :: args.drop 2 := by
+  match args, h with
+  | a :: b :: r, _ => simp
+
+theorem argAt_set_other (args : List Val) (p : Val) : argAt (args.set 0 p) 1 = argAt args 1 := by
+  match args with
+  | [] => rfl
+  | [a] => rfl
+  | a :: b :: r => rfl
+
+/-- **splice = §15.4.4.12** with the order length, ToInteger(start), ToInteger(deleteCount), for every argument
+    count except exactly one (`splice_one_argument`) -/
+theorem splice_refines (O : Ops σ) (E : Env) (args : List Val) (hconv : ConvWF O) (hlen : LenSmall O)
+    (hargs : ∀ a ∈ args, WFv a) (hargc : args.length ≠ 1) (hundef : Prim O .undef) :
+    splice O E args = Spec.splice O E args := by
+  funext s
+  simp only [splice, Spec.splice, readLen, bind, M.bind, M.read]
+  cases h0 : O.lenRead s with
+  | err e s1 => rfl
+  | ok u s1 =>
+    simp only []
+    by_cases hz : args.length = 0
+    · have hnil : args = [] := List.eq_nil_of_length_eq_zero hz
+      subst hnil
+      simp only [convAt, List.length_nil, Nat.lt_irrefl, gt_iff_lt, Nat.not_lt_zero, if_false, pure, M.pure, M.bind, argAt,
+        List.getElem?_nil, Option.getD_none, hundef s1, List.drop_nil]
+      rw [spliceCore_refines O E _ [] s1 (by intro a ha; cases ha) (hlen s1) (by simp), specSpliceCore_nil]
+    · have h2 : args.length > 1 := by omega
+      have h1 : args.length > 0 := by omega
+      simp only [convAt, h1, if_true, bind, M.bind]
+      cases hc0 : O.conv (argAt args 0) s1 with
+      | err e s2 => rfl
+      | ok p0 s2 =>
+        have hl' : (args.set 0 p0).length > 1 := by simpa using h2
+        simp only [pure, M.pure, hl', if_true, argAt_set_other, M.bind]
+        cases hc1 : O.conv (argAt args 1) s2 with
+        | err e s3 => rfl
+        | ok p1 s3 =>
+          simp only [set_set_two args p0 p1 h2]
+          apply spliceCore_refines O E _ _ s3 _ (hlen s1) (by simp)
+          intro a ha
+          simp only [List.mem_cons] at ha
+          rcases ha with h | h | h
+          · subst h; exact hconv _ _ _ _ hc0
+          · subst h; exact hconv _ _ _ _ hc1
+          · exact hargs a (List.mem_of_mem_drop h)
+
 
 /-! ## reverse -/
 
@@ -1066,16 +653,19 @@ theorem forUp_congr (b1 b2 : Nat → M σ Unit) (lo n : Nat) (h : ∀ i, lo ≤ 
 
 /-- reverse = §15.4.4.8 for every receiver -/
 theorem reverse_refines (O : Ops σ) : reverse O = Spec.reverse O := by
-  funext s
-  simp only [reverse, Spec.reverse]
-  have : forUp (fun lower => reverseStep O lower (O.len s - lower - 1)) 0 (O.len s / 2)
-       = forUp (fun lower => Spec.reverseStep O lower (O.len s - lower - 1)) 0 (O.len s / 2) := by
-    apply forUp_congr
-    intro i _ _
-    funext s'
-    simp only [reverseStep, Spec.reverseStep]
-    cases h1 : O.has s' i <;> cases h2 : O.has s' (O.len s - i - 1) <;> simp
-  rw [this]
+  have hcore : ∀ len, reverseCore O len = Spec.reverseCore O len := by
+    intro len
+    funext s
+    simp only [reverseCore, Spec.reverseCore]
+    have : forUp (fun lower => reverseStep O lower (len - lower - 1)) 0 (len / 2)
+         = forUp (fun lower => Spec.reverseStep O lower (len - lower - 1)) 0 (len / 2) := by
+      apply forUp_congr
+      intro i _ _
+      funext s'
+      simp only [reverseStep, Spec.reverseStep]
+      cases h1 : O.has s' i <;> cases h2 : O.has s' (len - i - 1) <;> simp
+    rw [this]
+  simp only [reverse, Spec.reverse, hcore]
 
 /-- non-vacuity: an array-like whose [[Put]] and [[Delete]] always succeed -/
 def tOps : Ops (List (Option Val)) where
@@ -1087,6 +677,8 @@ def tOps : Ops (List (Option Val)) where
   putLen := fun _ s => .ok () s
   call := fun _ s => .ok .undef s
   isArr := fun _ => true
+  lenRead := fun s => .ok () s
+  conv := fun v s => .ok v s
 
 /-! ## sort: the result is a permutation (§15.4.4.11, first bullet of the postcondition) -/
 
@@ -1247,16 +839,15 @@ theorem quick_good (E : Env) (cmp : SortCmp) (s0 : List (Option Val)) :
     values and holes alike are only moved, never lost, duplicated or invented. -/
 theorem sort_permutation (E : Env) (cmp : SortCmp) (s : List (Option Val)) :
     ∃ s', sort tOps E true cmp s = .ok (.val .recv) s' ∧ s'.Perm s ∧ s'.length = s.length := by
-  simp only [sort, Bool.not_true, Bool.false_eq_true, if_false]
-  by_cases h1 : tOps.len s > 1
+  have hrl : readLen tOps s = .ok s.length s := rfl
+  simp only [sort, bind, M.bind, hrl, sortCore, Bool.not_true, Bool.false_eq_true, if_false]
+  by_cases h1 : s.length > 1
   · simp only [h1, if_true, bind, M.bind]
-    have hlen : tOps.len s = s.length := rfl
-    obtain ⟨s', e, r⟩ := quick_good E cmp s (tOps.len s) 0 (tOps.len s - 1) s ⟨List.Perm.refl _, rfl⟩ (by omega)
+    obtain ⟨s', e, r⟩ := quick_good E cmp s s.length 0 (s.length - 1) s ⟨List.Perm.refl _, rfl⟩ (by omega)
     rw [e]
     exact ⟨s', rfl, r.1, r.2⟩
   · simp only [h1, if_false]
     exact ⟨s, rfl, List.Perm.refl _, rfl⟩
-
 
 /-! ## Witness of the remaining deviation region (kernel-checked by `decide`) -/
 
@@ -1266,6 +857,7 @@ structure W where
   elems : List (Option Val)
   log : List (List Val) := []
   putOk : Bool := true
+  lenObj : Bool := false          -- `length` is an object: reading it is logged as `[obj 9]`
 deriving DecidableEq
 
 def wOps : Ops W where
@@ -1277,6 +869,10 @@ def wOps : Ops W where
   putLen := fun _ s => .ok () s
   call := fun args s => .ok .undef { s with log := args :: s.log }
   isArr := fun _ => true
+  lenRead := fun s => if s.lenObj then .ok () { s with log := [Val.obj 9] :: s.log } else .ok () s
+  conv := fun v s => match v with
+    | .obj id => .ok (.int 0) { s with log := [Val.obj id] :: s.log }
+    | p => .ok p s
 
 def E0 : Env := { pn := fun _ => .nan, ts := fun _ => [] }
 
@@ -1285,13 +881,38 @@ def retOf {σ : Type} : Res σ Ret → Option Ret
   | .err _ _ => none
 
 /-- splice_one_argument: [1].splice(0) — by the letter of ES5.1 nothing is removed -/
-example : retOf (splice wOps E0 [.int 0] ⟨1, [some (.int 1)], [], true⟩) = some (.arr [some (.int 1)])
-    ∧ retOf (Spec.splice wOps E0 [.int 0] ⟨1, [some (.int 1)], [], true⟩) = some (.arr []) := by decide
+example : retOf (splice wOps E0 [.int 0] ⟨1, [some (.int 1)], [], true, false⟩) = some (.arr [some (.int 1)])
+    ∧ retOf (Spec.splice wOps E0 [.int 0] ⟨1, [some (.int 1)], [], true, false⟩) = some (.arr []) := by decide
+
+
+/-- join_separator_before_length: an object separator is converted before `length` is read -/
+example : (stateOf (join wOps E0 [.obj 1] ⟨1, [some .null], [], true, true⟩)).log = [[.obj 9], [.obj 1]]
+    ∧ (stateOf (Spec.join wOps E0 [.obj 1] ⟨1, [some .null], [], true, true⟩)).log = [[.obj 1], [.obj 9]] := by decide
+
+/-- callable_before_length: a non-callable callback throws before `length` is read -/
+example : (stateOf (forEach wOps false ⟨1, [some .null], [], true, true⟩)).log = []
+    ∧ (stateOf (Spec.forEach wOps false ⟨1, [some .null], [], true, true⟩)).log = [[.obj 9]] := by decide
+
+/-- lastIndexOf_converts_fromIndex_of_empty -/
+example : (stateOf (lastIndexOf wOps E0 [.null, .obj 2] ⟨0, [], [], true, false⟩)).log = [[.obj 2]]
+    ∧ (stateOf (Spec.lastIndexOf wOps E0 [.null, .obj 2] ⟨0, [], [], true, false⟩)).log = [] := by decide
+
+/-- sort_code_point_order: U+E000 and U+10000 compare by UTF-8 bytes in otto, by UTF-16 code units in ES5 -/
+example :
+    let E1 : Env := { pn := fun _ => .nan, ts := fun v => match v with | .str b => b | _ => [] }
+    stateOf (sort tOps E1 true none [some (.str [0xf0, 0x90, 0x80, 0x80]), some (.str [0xee, 0x80, 0x80])])
+      = [some (.str [0xee, 0x80, 0x80]), some (.str [0xf0, 0x90, 0x80, 0x80])]
+    ∧ stateOf (Spec.sort tOps E1 true none [some (.str [0xf0, 0x90, 0x80, 0x80]), some (.str [0xee, 0x80, 0x80])])
+      = [some (.str [0xf0, 0x90, 0x80, 0x80]), some (.str [0xee, 0x80, 0x80])] := by decide
+
+/-- the order of ToInteger(start) and ToInteger(end) in slice: both sides convert start first -/
+example : (stateOf (slice wOps E0 [.obj 1, .obj 2] ⟨1, [some .null], [], true, false⟩)).log = [[.obj 2], [.obj 1]]
+    ∧ (stateOf (Spec.slice wOps E0 [.obj 1, .obj 2] ⟨1, [some .null], [], true, false⟩)).log = [[.obj 2], [.obj 1]] := by decide
 
 /-- the cases that used to deviate now agree: "01" is no index; holes stay holes; splice() removes nothing -/
 example : stringToArrayIndexRaw [48, 49] = -1 ∧ Spec.arrayIndex? [48, 49] = none := by decide
-example : retOf (slice wOps E0 [] ⟨2, [some (.int 1), none], [], true⟩) = some (.arr [some (.int 1), none]) := by decide
-example : retOf (splice wOps E0 [] ⟨1, [some (.int 1)], [], true⟩) = some (.arr []) := by decide
+example : retOf (slice wOps E0 [] ⟨2, [some (.int 1), none], [], true, false⟩) = some (.arr [some (.int 1), none]) := by decide
+example : retOf (splice wOps E0 [] ⟨1, [some (.int 1)], [], true, false⟩) = some (.arr []) := by decide
 
 def intCmp : Val → Val → Int
   | .int a, .int b => if a < b then -1 else if a > b then 1 else 0
